@@ -120,6 +120,11 @@ def r1_same_quantity(rep, ctx, RID1="C05.R1"):
                 kinds[nid] = (("empty", frozenset(side(l[2][0]))), t[1] == "cmp:NotEq")
         elif t[0] == "op" and t[1] == "cmp:Gt" and len(t[2]) == 2 and t[2][1] == ("const", 0) and t[2][0][0] == "call" and t[2][0][1] == ("name", "len") and t[2][0][2] and cu(t[2][0][2][0]):
             kinds[nid] = (("empty", frozenset(side(t[2][0][2][0]))), True)
+        elif cu(t) and all(a_[0] == "call" and a_[1] in (("name", "set"), ("name", "frozenset"), ("name", "tuple"), ("name", "list"), ("name", "sorted")) or (a_[0] == "call" and a_[1][0] == "attr" and a_[1][2] == "GetComposingUnitsJoiningExponents") for a_ in alternatives(t)):
+            # the collection of composing units itself used as a condition: true when not empty
+            kinds[nid] = (("empty", frozenset(side(t))), True)
+        elif t[0] == "call" and t[1] == ("name", "len") and t[2] and cu(t[2][0]):
+            kinds[nid] = (("empty", frozenset(side(t[2][0]))), True)
     if cu_pair is None:
         rep.bad("C05.R1", "same-quantity:comparison", "the comparison of the joined composing units of both operands was not found: operands of different dimensions are combined", fn=fn)
         return
